@@ -156,14 +156,27 @@ class S2(bc.StrandS): pass
 class M2(bc.MacrostateS): pass
 
 
+def twins(base):
+    """two classes that no naming attribute tells apart (what a class factory called twice, type() called twice or a
+    re-executed class statement give): a registry belongs to the class object, not to its name"""
+    def make():
+        class Twin(base):
+            pass
+        return Twin
+    return make(), make()
+
+
 def siblings():
-    """objects of classes none of which derives from the other (and a sub-subclass against its parent's sibling) are
-    distinct objects in distinct registries, yet compare equal and hash equally when name / canonical form agree"""
+    """objects of classes none of which derives from the other (and a sub-subclass against its parent's sibling, and two
+    classes of the same name from one class factory) are distinct objects in distinct registries, yet compare equal and
+    hash equally when name / canonical form agree"""
     fresh()
     bad = []
     def same(kind, x, y):
         if x is y:
             bad.append(f"{kind}: {type(x).__name__} and {type(y).__name__} share one object")
+        if type(x) is type(y):
+            bad.append(f"{kind}: requests to two sibling classes gave two objects of one class, {type(x).__name__}")
         if not (x == y) or (x != y) or not (y == x) or (y != x):
             bad.append(f"{kind}: {type(x).__name__}({x.name}) and {type(y).__name__}({y.name}) with the same description do not compare equal")
         elif hash(x) != hash(y):
@@ -171,8 +184,25 @@ def siblings():
         elif len({x, y}) != 1:
             bad.append(f"{kind}: a set keeps both of two equal objects")
     held = []
-    for A, B in ((D1, D3), (D2, D3), (D3, D1)):
-        x, y = A("q", 7), B("q", 7)
+
+    def both(kind, A, B, fa, fb):
+        """the same description requested from A, then from B: the second request is neither refused nor answered by A"""
+        try:
+            x = fa()
+        except Exception as e:
+            bad.append(f"{kind}: the first request to {A.__name__} (no object of that class alive) raises {type(e).__name__}: {e}")
+            return None, None
+        try:
+            y = fb()
+        except Exception as e:
+            bad.append(f"{kind}: with an object of sibling class {A.__name__} alive, the request for the same description to "
+                       f"{B.__name__} raises {type(e).__name__}")
+            return x, None
+        return x, y
+    for A, B in ((D1, D3), (D2, D3), (D3, D1), twins(bc.DomainS), twins(D1)):
+        x, y = both("domain", A, B, lambda: A("q", 7), lambda: B("q", 7))
+        if y is None:
+            continue
         held += [x, y]
         same("domain", x, y)
         same("domain", ~x, ~y)
@@ -182,17 +212,28 @@ def siblings():
         x.sequence = y.sequence = None
     d = {cls: [cls("a", 5), cls("b", 6)] for cls in (bc.DomainS,)}
     a, b = d[bc.DomainS]
-    for A, B in ((C1, C2), (S1, S2)):
-        if A in (S1, S2):
-            x, y = A([a, b], name="k"), B([a, b], name="k")
+    for A, B in ((C1, C2), (S1, S2), twins(bc.ComplexS), twins(bc.StrandS)):
+        if issubclass(A, bc.StrandS):
+            x, y = both("strand", A, B, lambda: A([a, b], name="k"), lambda: B([a, b], name="k"))
         else:
-            x, y = A([a, ~a, "+", b], list("()+."), name="k"), B([b, "+", a, ~a], list(".+()"), name="k")
+            x, y = both("complex", A, B, lambda: A([a, ~a, "+", b], list("()+."), name="k"),
+                        lambda: B([b, "+", a, ~a], list(".+()"), name="k"))
+        if y is None:
+            continue
         held += [x, y]
-        same("complex" if A is C1 else "strand", x, y)
+        same("strand" if issubclass(A, bc.StrandS) else "complex", x, y)
     c1 = bc.ComplexS([a, b], list(".."), name="m1")
     c2 = bc.ComplexS([b, a], list(".."), name="m2")
     mx, my = M1([c1, c2]), M2([c2, c1])
     same("macrostate", mx, my)
+    MT1, MT2 = twins(bc.MacrostateS)
+    RT1, RT2 = twins(bc.ReactionS)
+    mx, my = both("macrostate", MT1, MT2, lambda: MT1([c1, c2]), lambda: MT2([c2, c1]))
+    if my is not None:
+        same("macrostate", mx, my)
+    rx, ry = both("reaction", RT1, RT2, lambda: RT1([c1, c2], [c2], "bind21"), lambda: RT2([c2, c1], [c2], "bind21"))
+    if ry is not None:
+        same("reaction", rx, ry)
     rx, ry = R1([c1], [c2], "open"), R2([c1], [c2], "bind21")
     r1, r2 = R1([c1, c2], [c2], "bind21"), R2([c2, c1], [c2], "bind21")
     same("reaction", r1, r2)
@@ -226,7 +267,11 @@ def main():
             r = failing_ctor(kind, when)
             if r:
                 fails.append(r)
-    r = siblings()
+    try:
+        r = siblings()
+    except Exception as e:              # a statement that cannot be evaluated is a failure of that statement, not of the check
+        r = {"steps": ["sibling classes"], "what": [f"the sibling-class statements raised {type(e).__name__}: {e}"]}
+        fresh()
     if r:
         fails.append(r)
     json.dump({"failures": fails[:10]}, sys.stdout)
